@@ -122,6 +122,7 @@ inductive Rule
   | condNotBool | whileNotBool | condBranches | branchArrays | branchFuncs | branchRanges | branchSlices
   | tupleForm | tupleDerefDims | tupleDerefType | tupleIndex | tupleIndexProper
   | arrayShape | rangeFrom | rangeTo | sliceDims | pipeNotFunc
+  | funcNoName | emptyMainUnit
   | returnType
   | matchNotEnum | matchExprNotEnum | matchGuardEnum | matchGuardItem | matchGuardNotEnum
   | matchGuardDiffers | matchMissing
@@ -840,12 +841,17 @@ def funcEnv (Γ : Env) (name : String) (s : Sig) : Env :=
   | .ok Γf => Γf
   | .error _ => Γ.push
 
+/-- `symtab_add_func_from_func`: a function ITEM (top level or in a block) needs a name
+(0b116cb: the NULL name used to be hashed) -/
+def addFunc (Γ : Env) (ln : Ln) (name : String) (e : Entry) : Except Diag Env :=
+  if name = "" then .error ⟨ln, .funcNoName⟩ else Γ.add ln name e
+
 /-- first loop of `seq_list_check_type` over a run of functions: add to the enclosing table
 (duplicate → error at the function), check the declaration -/
 def declFuncs (Γ : Env) : FuncList → Except Diag (Env × List Sig)
   | .nil => .ok (Γ, [])
   | .cons f rest => do
-    let Γ1 ← Γ.add f.ln f.name (.func .nil .dflt .int)
+    let Γ1 ← addFunc Γ f.ln f.name (.func .nil .dflt .int)
     let s ← declFunc Γ1 f.name f.params f.rc f.rty
     let Γ2 ← Γ.add f.ln f.name s.entry
     let (Γ3, ss) ← declFuncs Γ2 rest
@@ -1314,9 +1320,16 @@ def globalEnv (ds : List Decl) : Except Diag Env := do
   let recs ← checkDecls Γ1 ds
   pure { Γ1 with records := recs }
 
+/-- `main_check_type`: a main unit of declarations only has nothing to compile to (bad4904:
+the NULL list used to be walked); the diagnostic is at line 1 -/
+def nonEmptyUnit : FuncList → Except Diag Unit
+  | .nil => .error ⟨1, .emptyMainUnit⟩
+  | .cons _ _ => .ok ()
+
 /-- `never_check_type` for the main module: the first diagnostic, or `ok` -/
 def check (p : Prog) : Except Diag Unit := do
   let Γ ← globalEnv p.decls
+  nonEmptyUnit p.funcs
   let (Γ', ss) ← declFuncs Γ p.funcs
   tcBodies Γ' p.funcs ss
 
